@@ -62,7 +62,7 @@ Check C02_resolve_latest : forall (R : resolver) (tid : dict -> N) allow (member
     file (h : history) secss q0 secs0 d0 older size,
   Forall2 represents secss h -> wf_history h ->
   map snd ((q0, secs0) :: older) = rev secss ->
-  starts_with xr_header file = true -> locate_xref_offset file = Ok q0 ->
+  starts_with xr_header file = true -> startxref_at file q0 ->
   section_at file q0 secs0 d0 -> t_size (tinfo_of tid d0) = Some size -> size <= xr_max_id ->
   chain_at tid file 0 (t_prev (tinfo_of tid d0)) older -> NoDup (map fst older) ->
   lenN file < usize_max ->
@@ -71,3 +71,4 @@ Check C02_resolve_latest : forall (R : resolver) (tid : dict -> N) allow (member
   exists t, load (xref_at_tables R tid) file = Ok (0, t, tid d0) /\
     forall n fuel, n < size ->
       stored file 0 n (latest h n) (resolve_ref prim (obj_at_parse R allow F_ANY) member (S fuel) file 0 t n).
+Check C02_locate_startxref : forall file q, startxref_at file q -> locate_xref_offset file = Ok q.
